@@ -16,6 +16,9 @@ let hex_of_bytes (l:n list) : string =
   List.iter (fun x -> Buffer.add_string b (Printf.sprintf "%02x" (int_of_n x))) l; Buffer.contents b
 let hexarg s = if s = "-" then [] else bytes_of_hex s
 
+let mkparams a b c d e f g h i j k l = { p_total=a; p_lo=b; p_contig=c; p_meta_kind=d; p_holes=e; p_force0=f; p_rootcap=g; p_subdirs=h; p_sub_first=i; p_sub_more=j; p_lock=k; p_extent_slots=l }
+let mkst a b = { files = a; used = b }
+
 let show_outcome (o: n list outcome) : string = match o with
   | ROk l -> "ok:" ^ hex_of_bytes l
   | RErr c -> "err:" ^ string_of_int (int_of_n c)
@@ -40,6 +43,97 @@ let handle (toks: string list) : string =
       let buf = run_track (is13 = "1") (nat_of_int (int_of_string sync)) (n_of_int (int_of_string fill))
                   (n_of_int (int_of_string buflen)) (n_of_int (int_of_string vol)) (n_of_int (int_of_string trk)) (pairs rest) in
       id ^ " " ^ hex_of_bytes buf
+  | "fsm" :: id :: fs :: total :: lo :: used0 :: rootcap :: extslots :: subfirst :: submore :: rest ->
+      (* rest: the ops string (same syntax as the harness), possibly containing spaces *)
+      let ni s = n_of_int (int_of_string s) in
+      let opstr = String.concat " " rest in
+      let csv s = if s = "-" then [] else List.map ni (String.split_on_char ',' s) in
+      let b x = x in
+      let pr = (match fs with
+        | "dos33" | "dos32" -> mkparams (ni total) (ni lo) false (ni "1") true false (ni rootcap) false (ni "0") (ni "0") true (ni "0")
+        | "prodos" -> mkparams (ni total) (ni lo) false (ni "2") true true (ni rootcap) true (ni subfirst) (ni submore) true (ni "0")
+        | "pascal" -> mkparams (ni total) (ni lo) true (ni "0") false false (ni rootcap) false (ni "0") (ni "0") false (ni "0")
+        | "fat" -> mkparams (ni total) (ni lo) false (ni "0") false false (ni rootcap) true (ni subfirst) (ni submore) true (ni "0")
+        | _ -> mkparams (ni total) (ni lo) false (ni "0") true false (ni rootcap) false (ni "0") (ni "0") true (ni extslots)) in
+      ignore b;
+      let name_of (s:string) : n list = List.init (String.length s) (fun i -> n_of_int (Char.code (Char.uppercase_ascii s.[i]))) in
+      let flat = (String.length fs >= 3 && String.sub fs 0 3 = "cpm") in
+      let path_of (s:string) : n list list =
+        if flat then
+          let s = String.uppercase_ascii s in
+          let s = (match String.index_opt s ':' with Some i -> String.sub s 0 i ^ "/" ^ String.sub s (i+1) (String.length s - i - 1) | None -> "0/" ^ s) in
+          [name_of s]
+        else List.map name_of (String.split_on_char '/' s) in
+      let str_of_name (nm: n list) = String.concat "" (List.map (fun c -> String.make 1 (Char.chr (int_of_n c))) nm) in
+      let str_of_path (p: n list list) = String.concat "/" (List.map str_of_name p) in
+      let parse_spec (spec:string) (free:int) : n list =
+        if String.length spec > 0 && spec.[0] = 'F' then
+          let d = int_of_string (String.sub spec 1 (String.length spec - 1)) in
+          let n = max 1 (free + d) in List.init n n_of_int
+        else
+          List.concat_map (fun part ->
+            if part = "" then [] else
+            match String.index_opt part '-' with
+            | Some i -> let a = int_of_string (String.sub part 0 i) and bb = int_of_string (String.sub part (i+1) (String.length part - i - 1)) in
+                        List.init (bb - a + 1) (fun k -> n_of_int (a + k))
+            | None -> [n_of_int (int_of_string part)]) (String.split_on_char ',' spec) in
+      let fmt_idx (l: int list) : string =
+        let rec go l acc = match l with
+          | [] -> List.rev acc
+          | a :: r -> let rec ext last r = (match r with x :: q when x = last + 1 -> ext x q | _ -> (last, r)) in
+                      let (last, r') = ext a r in
+                      go r' ((if last > a then Printf.sprintf "%d-%d" a last else string_of_int a) :: acc) in
+        String.concat "," (go l []) in
+      let show (s: st) (res:string) : string =
+        let items = List.map (fun (p, f) ->
+          let ps = String.map (fun c -> if c = ' ' then '_' else c) (str_of_path p) in
+          (ps, if f_isdir f then ps ^ "/" else ps ^ ":" ^ fmt_idx (List.map int_of_n (f_chunks f)))) (files s) in
+        let items = List.map snd (List.sort (fun (a, _) (b, _) -> compare a b) items) in
+        Printf.sprintf "%s,%d,%s" res (int_of_n (reported_free pr s)) (String.concat "|" items) in
+      let s0 = mkst [] (csv used0) in
+      let ops = List.filter (fun x -> x <> "") (String.split_on_char ';' opstr) in
+      let buf = Buffer.create 4096 in
+      Buffer.add_string buf (show s0 "init");
+      let _ = List.fold_left (fun s o ->
+        let f = Array.of_list (String.split_on_char '~' o) in
+        let free = int_of_n (reported_free pr s) in
+        if f.(0) = "Z" then begin
+          (* fill with filler files until exactly k units are free (same procedure as the harness) *)
+          let k = int_of_string f.(1) in
+          let needs n = if n = 0 then 0 else n + int_of_n (meta_units pr (List.init n n_of_int)) in
+          let rec loop s i =
+            let cur = int_of_n (reported_free pr s) in
+            if cur <= k || i > 40 then s else begin
+              let c = cur - k in
+              let n = ref c in
+              while !n > 0 && needs !n > c do decr n done;
+              if !n = 0 then s else begin
+                let name = if flat || fs = "fat" then Printf.sprintf "ZF%d.Z" i else Printf.sprintf "ZF%d" i in
+                let (s', r) = step pr s (Put (path_of name, List.init !n n_of_int)) in
+                match r with Accepted -> loop s' (i+1) | Refused -> s'
+              end
+            end in
+          let s' = loop s 0 in
+          Buffer.add_char buf ' '; Buffer.add_string buf (show s' "ok"); s'
+        end else
+        let operation = (match f.(0) with
+          | "P" -> Some (Put (path_of f.(1), parse_spec f.(2) free))
+          | "D" -> Some (Delete (path_of f.(1)))
+          | "R" -> Some (Rename (path_of f.(1), (if flat then List.hd (path_of f.(2)) else name_of f.(2))))
+          | "L" -> Some (Lock (path_of f.(1)))
+          | "U" -> Some (Unlock (path_of f.(1)))
+          | "M" -> Some (Mkdir (path_of f.(1)))
+          | _ -> None) in
+        match operation with
+        | None ->
+            (* retype and other entry-only operations: accepted iff the path exists, nothing the model tracks changes *)
+            let exists = List.exists (fun (p, _) -> p = path_of f.(1)) (files s) in
+            Buffer.add_char buf ' '; Buffer.add_string buf (show s (if exists then "ok" else "ref")); s
+        | Some op ->
+            let (s', r) = step pr s op in
+            Buffer.add_char buf ' ';
+            Buffer.add_string buf (show s' (match r with Accepted -> "ok" | Refused -> "ref")); s') s0 ops in
+      id ^ " " ^ Buffer.contents buf
   | "cells" :: id :: family :: btype :: rest ->
       (* family: do | woz | d13 | woz35:<sides> | fat:<spt>:<heads>:<secsize> | cpm:<imd|td0>:<ident>:<spt>:<shift>:<heads> *)
       let ni s = n_of_int (int_of_string s) in
